@@ -179,7 +179,7 @@ func runSpace(r *core.Run, cache *sigCache, name string, sp space, cs []combo, e
 var keyPairs = [][]string{{"a", "b"}, {"b", "a"}, {"a", "1"}, {"1", "a"}, {"1", "0"}, {"0", "1"}, {"10", "9"}, {"9", "10"}, {"", "a"}, {"esc", "a"}, {"__proto__", "a"}, {"a", "toJSON"}, {"toJSON", "a"}, {"length", "0"}, {"lone", "astral"}}
 var keySingles = []string{"a", "1", "", "esc", "__proto__", "toJSON", "length", "lone", "astral", "b", "0"}
 
-func runStringifyA(r *core.Run, cache *sigCache, bounds map[string]interface{}) bool {
+func runStringifyA1(r *core.Run, cache *sigCache, bounds map[string]interface{}) bool {
 	full := leafSpace(allLeafNames())
 	// A1: leaves and containers of <= 1 child x the complete replacer x indent product
 	var sh1 []shape
@@ -194,7 +194,12 @@ func runStringifyA(r *core.Run, cache *sigCache, bounds map[string]interface{}) 
 		return false
 	}
 	bounds["stringify A1"] = fmt.Sprintf("%d values (all %d leaves; [], {}, [x], [,], {k:x} for %d keys) x %d replacers x %d indents = %d calls, + MarshalJSON + parse(stringify(v))", a1.Size(), len(leavesFull), len(keySingles), len(replacers), len(indents), a1.Size()*int64(len(c1)))
-	// A2: containers of 2 children over the full leaf alphabet
+	return true
+}
+
+// A2: containers of 2 children over the full leaf alphabet
+func runStringifyA2(r *core.Run, cache *sigCache, bounds map[string]interface{}) bool {
+	full := leafSpace(allLeafNames())
 	var sh2 []shape
 	sh2 = append(sh2, arrShape(2, true))
 	for _, kp := range keyPairs {
